@@ -7,7 +7,12 @@ CHECKS = {"R1_receiver_ack_helper": ["C01", "C02", "C03", "C04", "C05", "C06", "
           "R2_scheduler_kicker": ["C09", "C10", "C11", "C14", "C15", "C16"],
           "R3_procman_retry": ["C11", "C17", "C18"],
           "R4_serialization_params": ["C08", "C19", "C20"],
-          "R5_prefetch_no_lookahead": ["C01", "C03", "C04", "C05"]}
+          "R5_prefetch_no_lookahead": ["C01", "C03", "C04", "C05"],
+          "R6_receiver_ack_positions_poll": ["C01", "C02", "C03", "C04", "C05", "C06", "C07", "C10", "C12"],
+          "R7_procman_orders": ["C17", "C18"],
+          "R8_scheduler_variants": ["C13", "C14", "C15", "C16"],
+          "R9_kicker_retry_params_orders": ["C08", "C09", "C10", "C11", "C16"],
+          "R10_serialization_orders": ["C19", "C20", "C07"]}
 
 def sh(cmd):
     return subprocess.run(cmd, shell=True, capture_output=True, text=True)
@@ -30,6 +35,13 @@ for rid in (sys.argv[1:] or sorted(CHECKS)):
     finally:
         sh(f"git -C /repo worktree remove --force {wt}")
         shutil.rmtree(wt, ignore_errors=True)
+prev = []
+if sys.argv[1:] and os.path.exists("/verif/refactors/RESULTS.md"):
+    for line in open("/verif/refactors/RESULTS.md"):
+        c = [x.strip() for x in line.strip().strip("|").split("|")]
+        if len(c) == 4 and c[0].startswith("R") and c[0] not in sys.argv[1:]:
+            prev.append((c[0], c[1], c[2], int(c[3])))
+rows = prev + rows
 with open("/verif/refactors/RESULTS.md", "w") as f:
     f.write("# Behaviour-preserving refactors: no check may raise an alarm\n\n| refactor | check | result | model divergences reported |\n|---|---|---|---|\n")
     for r in rows:
